@@ -147,6 +147,16 @@ CLAIMED = {
          'exception\'s report compared key by key and fragment by fragment; toggling histories on one parser.',
     note='Bounded sweep (bound in the theorem). Reading of the workbook is C18\'s. Known finding: upper_suffix_identifier_escapes.',
     technique='regenerated regexes + Coq kernel-exhaustive sweep + Coq proofs on the facade model + vm_compute correspondence', ref='6/C19'),
+ 'C18': dict(
+    text='Unbounded Coq theorems over a model of Excel.parse on an abstract sparse worksheet: every coordinate (inside gaps, beyond the last row or '
+         'column, on empty sheets) is read back exactly as stored (position in the row stream = coordinate); the reported sizes are the largest '
+         'stored row and a last column that covers every stored cell and never exceeds the largest stored column; a text constant emitted as '
+         'repr(text) is, for EVERY byte string, exactly one Python string literal denoting the original text (induction over the string with all '
+         'escape cases). Correspondence on real xlsx files written with openpyxl: sparse layouts, far-away cells (XFD1, row 3000), empty sheets, '
+         'every stored type; Excel.parse data/sizes/titles compared in Coq; every planted and never-written cell evaluated through the translated class.',
+    note='openpyxl\'s read-only row stream is an oracle with a stated contract (validated by the correspondence). time/timedelta cells not generated. '
+         'No known findings.',
+    technique='Coq proof (list/seq lemmas; induction over strings for repr) + vm_compute correspondence on real files', ref='6/C18'),
 }
 
 ids = [json.loads(l)['id'] for l in open('/verif/properties.jsonl')]
